@@ -406,6 +406,9 @@ WouldBe(s, e) == Append(Touched(s)[s].exps, Bound(Touched(s)[s], e))
 \* the frame of the model: an output parameter of a user type is expected only where a copier for the type is in force
 \* (the "No way to copy" failure is not modelled)
 CopiersPresent(s, e) == \A k \in DOMAIN e.outs : e.outs[k].ty # "raw" => CpyOf(Touched(s)[s].repo, e.outs[k].ty) # "none"
+\* generation only: object parameters are expected where a comparator for the type is in force (an expectation made without one
+\* binds none and matches nothing; the sweep covers that case)
+ComparatorsPresent(s, e) == \A k \in DOMAIN e.ins : e.ins[k].t = "obj" => CmpOf(Touched(s)[s].repo, e.ins[k].tn) # "none"
 \* comparators and copiers are removed only while no expectation (which may have bound one) exists
 NoExpectations == \A s \in Scopes : Len(ms[s].exps) = 0
 ObjTNames == { v.tn : v \in { x \in Vals : x.t = "obj" } }
